@@ -1,0 +1,117 @@
+// Copyright 2026 The Go Authors. All rights reserved.
+// Use of this source code is governed by a BSD-style
+// license that can be found in the LICENSE file.
+
+//go:build verif
+
+package ssh
+
+import (
+	"io"
+	"net"
+	"sync"
+)
+
+// Verification hooks (build tag "verif" only): handshakeTransport pairs over a
+// recording keyingTransport, for trace validation of re-keying (transparent
+// key re-exchange under concurrent traffic) and strict-KEX conformance checks.
+
+// VerifHSRecorder receives one call per packet crossing the boundary between
+// a handshakeTransport and its keyingTransport. ev is "wire" (writePacket
+// entry, before the packet is written) or "recv" (readPacket returned). The
+// callback runs on the goroutine doing the I/O; for "wire" events of
+// application packets that goroutine holds the handshakeTransport mutex.
+type VerifHSRecorder func(side, ev string, packet []byte)
+
+type verifRecTransport struct {
+	keyingTransport
+	side string
+	rec  VerifHSRecorder
+}
+
+func (r *verifRecTransport) writePacket(p []byte) error {
+	if r.rec != nil {
+		r.rec(r.side, "wire", p)
+	}
+	return r.keyingTransport.writePacket(p)
+}
+
+func (r *verifRecTransport) readPacket() ([]byte, error) {
+	p, err := r.keyingTransport.readPacket()
+	if err == nil && r.rec != nil {
+		r.rec(r.side, "recv", p)
+	}
+	return p, err
+}
+
+// VerifHandshake wraps one handshakeTransport.
+type VerifHandshake struct {
+	t  *handshakeTransport
+	tr *transport
+}
+
+// VerifNewClientHandshake starts a client handshakeTransport on rwc.
+func VerifNewClientHandshake(rwc io.ReadWriteCloser, config *ClientConfig, clientVersion, serverVersion []byte, dialAddr string, addr net.Addr, rec VerifHSRecorder) *VerifHandshake {
+	config.SetDefaults()
+	tr := newTransport(rwc, config.Rand, true)
+	t := newClientTransport(&verifRecTransport{keyingTransport: tr, side: "c", rec: rec}, clientVersion, serverVersion, config, dialAddr, addr)
+	return &VerifHandshake{t: t, tr: tr}
+}
+
+// VerifNewServerHandshake starts a server handshakeTransport on rwc.
+func VerifNewServerHandshake(rwc io.ReadWriteCloser, config *ServerConfig, clientVersion, serverVersion []byte, rec VerifHSRecorder) *VerifHandshake {
+	config.SetDefaults()
+	tr := newTransport(rwc, config.Rand, false)
+	t := newServerTransport(&verifRecTransport{keyingTransport: tr, side: "s", rec: rec}, clientVersion, serverVersion, config)
+	return &VerifHandshake{t: t, tr: tr}
+}
+
+func (h *VerifHandshake) WaitSession() error          { return h.t.waitSession() }
+func (h *VerifHandshake) WritePacket(p []byte) error  { return h.t.writePacket(p) }
+func (h *VerifHandshake) ReadPacket() ([]byte, error) { return h.t.readPacket() }
+func (h *VerifHandshake) RequestKeyExchange()         { h.t.requestKeyExchange() }
+func (h *VerifHandshake) Close() error                { return h.t.Close() }
+func (h *VerifHandshake) SessionID() []byte           { return h.t.getSessionID() }
+
+// SeqNums returns the transport's current read and write sequence numbers.
+// Only meaningful while the connection is quiescent.
+func (h *VerifHandshake) SeqNums() (read, write uint32) {
+	return h.tr.reader.seqNum, h.tr.writer.seqNum
+}
+
+// StrictMode reports whether strict KEX was negotiated (handshake layer and
+// transport layer views).
+func (h *VerifHandshake) StrictMode() (handshake, transport bool) {
+	return h.t.strictMode, h.tr.strictMode
+}
+
+// Constants the specifications are instantiated with.
+const (
+	VerifMaxPendingPackets = maxPendingPackets
+	VerifChanSize          = chanSize
+	VerifMsgKexInit        = msgKexInit
+	VerifMsgNewKeys        = msgNewKeys
+	VerifMsgIgnore         = msgIgnore
+	VerifMsgDebug          = msgDebug
+	VerifMsgExtInfo        = msgExtInfo
+	VerifMsgUnimplemented  = msgUnimplemented
+)
+
+var verifNoStrict sync.Map // *Config -> bool
+
+// VerifDisableStrictKex makes handshakes using this Config not offer the
+// strict KEX extension (the peer then behaves as with a pre-Terrapin peer).
+func VerifDisableStrictKex(c *Config) { verifNoStrict.Store(c, true) }
+
+func verifFilterKexAlgos(c *Config, algos []string) []string {
+	if _, ok := verifNoStrict.Load(c); !ok {
+		return algos
+	}
+	out := algos[:0:0]
+	for _, a := range algos {
+		if a != kexStrictClient && a != kexStrictServer {
+			out = append(out, a)
+		}
+	}
+	return out
+}
